@@ -40,16 +40,29 @@ func c14cli(c *h.Ctx) {
 			if r.Chance(35) {
 				down += "; exit 1" // a failing shutdown hook of one context says nothing about the others
 			}
-			ctxs.Set(cx, gen.OM{{K: "up", V: []interface{}{tok(cx+"|up|S") + "; " + tok(cx+"|up|E")}}, {K: "down", V: []interface{}{down}},
-				{K: "before", V: []interface{}{tok(cx + "|cb")}}, {K: "after", V: []interface{}{tok(cx + "|ca")}}})
+			cdef := gen.OM{{K: "up", V: []interface{}{tok(cx+"|up|S") + "; " + tok(cx+"|up|E")}}, {K: "down", V: []interface{}{down}},
+				{K: "before", V: []interface{}{tok(cx + "|cb")}}, {K: "after", V: []interface{}{tok(cx + "|ca")}}}
+			if r.Chance(25) {
+				cdef = cdef[1:] // nothing to bring up; still shut down
+				if info.NoUp == nil {
+					info.NoUp = map[string]bool{}
+				}
+				info.NoUp[cx] = true
+			}
+			ctxs.Set(cx, cdef)
 		}
 		tasks := gen.OM{}
+		skipSome := r.Chance(30)
 		mk := func(name, cx string, fail bool) {
 			cmd := "echo some visible output of " + name + "; " + tok(fmt.Sprintf("%s|T|%s:c0", cx, name))
 			if fail {
 				cmd += "; exit 5"
 			}
-			tasks.Set(name, gen.OM{{K: "context", V: cx}, {K: "command", V: []interface{}{cmd}}})
+			td := gen.OM{{K: "context", V: cx}, {K: "command", V: []interface{}{cmd}}}
+			if skipSome && !fail && (name == "p0" || name == "n0" || name == "t0") {
+				td.Set("condition", "exit 1") // skipped: no command token, hooks balanced
+			}
+			tasks.Set(name, td)
 		}
 		// targets
 		kind := []string{"task", "pipeline", "two-tasks", "task+pipeline", "nested"}[r.Intn(5)]
@@ -57,7 +70,7 @@ func c14cli(c *h.Ctx) {
 		var argv []string
 		pipes := gen.OM{}
 		ran := func(name, cx string, failed bool) {
-			info.Tasks[name] = oracle.CtxTask{Ctx: cx, Ran: true, Failed: failed, RetOK: !failed}
+			info.Tasks[name] = oracle.CtxTask{Ctx: cx, Ran: true, Failed: failed, RetOK: !failed, Skipped: skipSome && !failed && (name == "p0" || name == "n0" || name == "t0")}
 		}
 		cx0 := "c0"
 		cx1 := fmt.Sprintf("c%d", r.Intn(nctx))
